@@ -20,6 +20,7 @@ import (
 	"strconv"
 	"strings"
 	"sync"
+	"sync/atomic"
 	"syscall"
 	"time"
 
@@ -677,22 +678,37 @@ func c05Worker(args []string) int {
 	defer out.Flush()
 	var mu sync.Mutex
 	curOp := ""
-	curStart := cpuSeconds()
+	curStart := 0.0 // a serial number of the running operation
+	opSeq := 0.0
 	curMutant := -1
-	// watchdog: memory growth and CPU time of the current operation
+	// watchdog: memory growth and CPU time of the current operation. CPU time is added up tick by tick and a
+	// tick counts for half a second at most: when the machine is stopped or its clock steps (a snapshot of
+	// the virtual machine did that) the accounting of one tick can jump by a minute, which is no CPU time the
+	// operation had. A real loop collects its 20 seconds over at least 40 ticks.
 	go func() {
 		var ms runtime.MemStats
+		lastCPU, used, usedFor := cpuSeconds(), 0.0, -1.0
 		for {
 			time.Sleep(20 * time.Millisecond)
 			runtime.ReadMemStats(&ms)
 			mu.Lock()
 			op, st, m := curOp, curStart, curMutant
 			mu.Unlock()
+			now := cpuSeconds()
+			d := now - lastCPU
+			lastCPU = now
+			if d > 0.5 {
+				d = 0.5
+			}
+			if st != usedFor {
+				usedFor, used = st, 0 // another operation started
+			}
+			used += d
 			if ms.HeapAlloc > c05HeapLimit {
 				fmt.Fprintf(os.Stdout, "\nV %d unbounded-alloc %s\n", m, strconv.Quote(op))
 				os.Exit(3)
 			}
-			if op != "" && cpuSeconds()-st > c05CPULimit {
+			if op != "" && used > c05CPULimit {
 				fmt.Fprintf(os.Stdout, "\nV %d hang %s\n", m, strconv.Quote(op))
 				os.Exit(4)
 			}
@@ -711,7 +727,8 @@ func c05Worker(args []string) int {
 		var names []string
 		for _, op := range c05AllOps(m.img, &names) {
 			mu.Lock()
-			curOp, curStart, curMutant = op.name, cpuSeconds(), m.N
+			opSeq++
+			curOp, curStart, curMutant = op.name, opSeq, m.N
 			mu.Unlock()
 			t0 := cpuSeconds()
 			func() {
@@ -753,7 +770,7 @@ type c05Shard struct {
 }
 
 func runC05(r *ev.Run) {
-	r.Rule = "base images: 5 small dbgen images (512-byte pages: two-level table and index trees, multi-page overflow chains in a rowid table, an index, a WITHOUT ROWID table and sqlite_master itself, multi-page sqlite_master; the fifth image runs the chain, field and trunc families only in the quick tier); mutants: (field) every structural field x a boundary alphabet (0, 1, +-1, 0x7f/0x80/0xff patterns, own page, every page, page count+1, 9-byte/negative varints, every serial type), (byte) every byte x 8 boundary values (x256 thorough), (chain) overflow chains whose last page points back to each page of the chain (cycle through the first page / cycle with a tail) x declared payload lengths {real, 4000, 2^20, 2^31, 2^40, 2^62}, (trunc) every length multiple of 64 and around page boundaries, (sql) hostile CREATE texts in sqlite_master incl. every ASCII punctuation character at the start of a token, inside a name and at the end of the text, (field2, thorough) pairs of related fields in one page, (journal) journal header fields x lengths on real files; every mutant runs every public operation in a worker subprocess; oracle: no panic, live heap < 3 GB, < 20 s CPU per operation. non-trivial = mutants (all differ from the base)"
+	r.Rule = "base images: 5 small dbgen images (512-byte pages: two-level table and index trees, multi-page overflow chains in a rowid table, an index, a WITHOUT ROWID table and sqlite_master itself, multi-page sqlite_master; the fifth image runs the chain, field and trunc families only in the quick tier); mutants: (field) every structural field x a boundary alphabet (0, 1, +-1, 0x7f/0x80/0xff patterns, own page, every page, page count+1, 9-byte/negative varints, every serial type), (byte) every byte x 8 boundary values (x256 thorough), (chain) overflow chains whose last page points back to each page of the chain (cycle through the first page / cycle with a tail) x declared payload lengths {real, 4000, 2^20, 2^31, 2^40, 2^62}, (trunc) every length multiple of 64 and around page boundaries, (sql) hostile CREATE texts in sqlite_master incl. every ASCII punctuation character at the start of a token, inside a name and at the end of the text, (field2, thorough) pairs of related fields in one page, (journal) journal header fields x lengths on real files; every mutant runs every public operation in a worker subprocess; oracle: no panic, live heap < 3 GB, < 20 s CPU per operation (a hang, an allocation or a death of the worker counts only when it comes back twice with the mutant run alone). non-trivial = mutants (all differ from the base)"
 	bin := os.Getenv("VCHECK_BIN")
 	if bin == "" {
 		bin, _ = os.Executable()
@@ -898,14 +915,22 @@ func c05RunShard(r *ev.Run, bin string, sh c05Shard, thorough string, bases []c0
 					fmt.Sscanf(rest, "%q %q %q", &op, &site, &msg)
 					r.Outcome("panic:" + site)
 					r.Violation("C05:panic:"+site+":"+panicClass(msg), fmt.Sprintf("%s panics in %s: %s [%s]", op, site, msg, m.Desc), art)
-				case "unbounded-alloc":
+				case "unbounded-alloc", "hang":
 					reported[n] = true
+					if !c05Reproduces(bin, sh, n, thorough, kind) {
+						// the report does not come back when the mutant is run alone: an event outside the code under
+						// test (the machine stopped, the process was signalled); not a finding
+						r.Add("worker_reports_not_reproduced", 1)
+						r.Outcome("report-not-reproduced:" + kind)
+						continue
+					}
+					if kind == "hang" {
+						r.Outcome("hang")
+						r.Violation("C05:hang:"+m.Class, fmt.Sprintf("%s does not finish within %.0f s CPU [%s]", rest, c05CPULimit, m.Desc), art)
+						continue
+					}
 					r.Outcome("unbounded-alloc")
 					r.Violation("C05:unbounded-alloc:"+m.Class, fmt.Sprintf("%s allocates without bound (> %d MB live heap on a %d byte image) [%s]", rest, c05HeapLimit>>20, len(bases[sh.base].img.Bytes), m.Desc), art)
-				case "hang":
-					reported[n] = true
-					r.Outcome("hang")
-					r.Violation("C05:hang:"+m.Class, fmt.Sprintf("%s does not finish within %.0f s CPU [%s]", rest, c05CPULimit, m.Desc), art)
 				}
 			}
 		}
@@ -945,6 +970,13 @@ func c05RunShard(r *ev.Run, bin string, sh c05Shard, thorough string, bases []c0
 				kind = "stack-overflow"
 			} else if strings.Contains(se, "out of memory") || strings.Contains(se, "cannot allocate memory") {
 				kind = "out-of-memory"
+			}
+			if kind == "worker-died" && !c05Reproduces(bin, sh, last, thorough, "died") {
+				// killed from outside (a signal that was not meant for it): the mutant runs fine alone
+				r.Add("worker_reports_not_reproduced", 1)
+				r.Outcome("report-not-reproduced:died")
+				from = last // the same mutant again, with a new worker
+				continue
 			}
 			r.Outcome(kind)
 			r.Violation("C05:"+kind+":"+class, fmt.Sprintf("the worker process died (%v) while running every operation on [%s]: %s", err, desc, clipS(se, 300)),
@@ -1048,4 +1080,37 @@ func c05Journal(r *ev.Run) {
 	r.Eval(1)
 	b, _ := json.Marshal(map[string]interface{}{"family": "field", "base": "t1-two-level", "example": "child pointer := own page"})
 	r.Sample(json.RawMessage(b))
+}
+
+// c05Reproduces runs one mutant alone, twice: a report of the given kind (hang, unbounded-alloc, or the death
+// of the worker = "died") counts only when it comes back both times. What the code under test does with a
+// given file is deterministic; what happens to the machine is not.
+var c05Confirmed int64
+
+func c05Reproduces(bin string, sh c05Shard, n int, thorough, kind string) bool {
+	if atomic.LoadInt64(&c05Confirmed) >= 3 {
+		return true // the phenomenon is real in this run (three reports came back twice): no need to pay for every further one
+	}
+	for i := 0; i < 2; i++ {
+		cmd := exec.Command(bin, "c05worker", sh.family, strconv.Itoa(sh.base), strconv.Itoa(n), strconv.Itoa(n+1), thorough)
+		cmd.Env = append(os.Environ(), "GOGC=200", "GOMAXPROCS=2")
+		out, err := cmd.Output()
+		again := false
+		for _, line := range strings.Split(string(out), "\n") {
+			if strings.HasPrefix(line, "V ") {
+				parts := strings.SplitN(line, " ", 4)
+				if len(parts) > 2 && parts[2] == kind {
+					again = true
+				}
+			}
+		}
+		if kind == "died" {
+			again = err != nil && !strings.Contains(string(out), "\nE ") && !strings.HasPrefix(string(out), "E ")
+		}
+		if !again {
+			return false
+		}
+	}
+	atomic.AddInt64(&c05Confirmed, 1)
+	return true
 }
